@@ -121,6 +121,51 @@ func execLimited(src string, lim rt.RuntimeResources, sch *core.Tape, memMode bo
 	return res
 }
 
+// execLimitedRoot gives the limits to the runtime itself (rt.WithRuntimeContext, as the golua command
+// does for -cpulimit/-memlimit): there is no CallContext around the program, the kill surfaces at the
+// host as a termination, and the host then closes the runtime - in the killed context.
+func execLimitedRoot(src string, lim rt.RuntimeResources) *quotaRun {
+	res := &quotaRun{termAt: -1}
+	s := core.NewSched(core.ReplayTape(nil), 0)
+	log := core.GetLog()
+	defer core.PutLog(log)
+	s.Begin()
+	// loading the libraries runs under the limits too: they are added to what the program gets
+	const setupCPU, setupMem = 3000000, 3000000
+	h := harness.NewHost(s, log, rt.WithRuntimeContext(rt.RuntimeContextDef{HardLimits: rt.RuntimeResources{Cpu: lim.Cpu + setupCPU, Memory: lim.Memory + setupMem}}))
+	killed := false
+	rt.VerifTerminateHook = func(c rt.RuntimeContext) {
+		// the context given to rt.New sits on top of the runtime's own unlimited one: depth 1
+		if ctxDepth(c) == 1 {
+			killed = true
+			if res.termAt < 0 {
+				res.termAt = log.Len()
+			}
+		}
+	}
+	out := h.Run("sim", src)
+	res.outcome = out.String()
+	res.status = h.R.RuntimeContext().Status()
+	res.used = h.R.RuntimeContext().UsedResources()
+	res.leak = s.Drain()
+	s.Reap(h.R.MainThread())
+	if pan := h.Close(); pan != nil {
+		if _, ok := pan.(rt.ContextTerminationError); !ok {
+			res.outcome += fmt.Sprintf(" CLOSEPANIC(%v)", pan)
+		}
+	}
+	rt.VerifTerminateHook = nil
+	if killed {
+		res.status = rt.StatusKilled // possibly only while being closed (a finaliser reached the limit then)
+	}
+	res.events = log.Events() // including whatever ran while the runtime was being closed
+	if l2 := s.End(); res.leak == "" {
+		res.leak = l2
+	}
+	s.Release()
+	return res
+}
+
 func isPrefix(a, b []string) bool {
 	if len(a) > len(b) {
 		return false
